@@ -1139,7 +1139,7 @@ pub const C09: BuilderProp = BuilderProp {
     id: "C09",
     profile: profile_c09,
     eval: eval_c09,
-    runs_quick: 60_000,
+    runs_quick: 100_000,
     runs_thorough: 3_000_000,
     text: "one run = one seeded Plutus wallet session (spends, mints, certificates, withdrawals, votes, proposals with scripts and datums by value / inline / by reference, extra and duplicated datums, cost models V1-V3, metadata and auxiliary scripts; coin selection moves spend indices) — non-trivial = a built transaction carried auxiliary data or redeemers/datums and body[7] / body[11] were recomputed from the byte spans of the emitted auxiliary data, redeemers and datums plus the harness's own language-views encoding; the stand-alone helpers are checked on the same artefacts; distinct = distinct state signature",
     extra_assumptions: &["script data hash judged only when calc_script_data_hash was the last script-affecting operation, as the statement says", "cost models are the harness's deterministic tables passed by the history"],
@@ -1148,7 +1148,7 @@ pub const C10: BuilderProp = BuilderProp {
     id: "C10",
     profile: profile_c10,
     eval: eval_c10,
-    runs_quick: 60_000,
+    runs_quick: 100_000,
     runs_thorough: 3_000_000,
     text: "one run = one seeded Plutus wallet session in which every attached redeemer carries a unique integer payload and insertion orders are seeded permutations (F7) — non-trivial = a built transaction whose every redeemer pointer was resolved against the emitted body under the ledger's pointer rules and compared with the item the history attached it to; distinct = distinct state signature",
     extra_assumptions: &["reward accounts and voters are ranked in the ledger's derived order (network, then script credential before key credential, then hash; voters: committee, DRep, pool)"],
@@ -1157,7 +1157,7 @@ pub const C18: BuilderProp = BuilderProp {
     id: "C18",
     profile: profile_c18,
     eval: eval_c18,
-    runs_quick: 60_000,
+    runs_quick: 100_000,
     runs_thorough: 3_000_000,
     text: "one run = one seeded wallet session mixing key, Byron, native and Plutus inputs, collateral, certificates, withdrawals, votes, mints and required signers with overlapping key hashes and scripts by value or by reference — non-trivial = a built transaction whose required scripts/datums/redeemers were derived from the emitted body and the world and looked up in the witness set / reference inputs, and whose full_size() was compared with the byte length after signing with exactly the distinct required keys; distinct = distinct state signature",
     extra_assumptions: &["keys declared on native script sources are native-script signers; signers declared on Plutus sources are also listed as required signers by the history", "a script provided both by witness and by reference is not judged (extraneousness is not in the statement)"],
@@ -1166,7 +1166,7 @@ pub const C19: BuilderProp = BuilderProp {
     id: "C19",
     profile: profile_c19,
     eval: eval_c19,
-    runs_quick: 60_000,
+    runs_quick: 100_000,
     runs_thorough: 3_000_000,
     text: "one run = one seeded wallet session with collateral inputs (pure ADA and asset-carrying) and one of the three collateral-setting paths (explicit return, explicit total, percentage helper running a full selection), incl. failing helpers after which the session continues (F4) — non-trivial = a built body whose fields 13/16/17 were checked as a whole-value equation against ground-truth collateral UTxOs, return min-ADA, percentage, or a failed attempt whose residue was inspected; distinct = distinct state signature",
     extra_assumptions: &["judged only when a helper was the last collateral-affecting operation before the build"],
@@ -1175,7 +1175,7 @@ pub const C20: BuilderProp = BuilderProp {
     id: "C20",
     profile: profile_c20,
     eval: eval_c20,
-    runs_quick: 60_000,
+    runs_quick: 100_000,
     runs_thorough: 3_000_000,
     text: "one run = one seeded session over certificates of all kinds (explicit and parameter-based amounts, key and script credentials), withdrawals and proposals in seeded order — non-trivial = a body (built, or forced from the final builder state) with at least one certificate/withdrawal/proposal on which get_deposit / get_implicit_input, the builder's own figures and the node's table were compared; distinct = distinct state signature",
     extra_assumptions: &["claimed for the agreement between helpers, builder and node on bodies the sessions reach (built, or forced out of the final builder state when balancing is impossible); totals beyond 64 bits are reached with explicit deposits / withdrawals near 2^63 and 2^64 and must be reported as errors by helpers and builder alike"],
